@@ -11,13 +11,21 @@ EXPLANATION = (
     "split_at, Duration::new, time arithmetic, size-driven allocations, and overflow asserts inside the decoders). Each "
     "site must be discharged by a structural justification class (constant index into a fixed array, division by a "
     "non-zero constant, allocation sized by an in-memory length, slice of the input taken only after a successful decode "
-    "/ first() / length test) or by an entry of the frozen justified table; anything else is a violation.")
+    "/ first() / length test, copy_from_slice between two slices of the same constant length) or by an entry of the "
+    "frozen justified table (reason + structural requirement re-evaluated on every run); anything else is a violation.")
 DECIDED = ["R21 every panic-capable site reachable from the decoders is structurally safe or justified (PANIC)"]
 UNDECIDED = ["correctness of the justified table itself (frozen with one reason per entry)",
              "stack exhaustion through deeply nested input"]
 
-READY = False   # under triage: not claimed in MANIFEST until every site is triaged
-JUSTIFIED = {}
+READY = True    # every residual site is triaged: justified below, or a reproduced genuine defect (known finding)
+
+# The decoders share these sites with the open/read path: same reasons and structural requirements as in C07.
+from rules import C07 as _c07     # noqa: E402
+JUSTIFIED = {k: _c07.JUSTIFIED[k] for k in (
+    "<std::time::SystemTime as agdb::utilities::serialize::Serialize>::deserialize|duration_new|",
+    "agdb::db::db_value_index::DbValueIndex::value|index|[u8; 16][Range]",
+    "agdb::storage::storage_records::StorageRecords::is_valid|index|Vec[usize]",
+)}
 
 
 def roots(fa):
